@@ -1010,21 +1010,26 @@ where
             lc
         })
         .collect();
-    sorted_lcs.sort_by(|a, b| {
-        if let Some(b_resume_lc) = &b.resume_lc {
-            if b_resume_lc.id == a.id {
-                // b is a resume of a so a must be earlier
-                return std::cmp::Ordering::Less;
-            }
-        }
-        if let Some(a_resume_lc) = &a.resume_lc {
-            if a_resume_lc.id == b.id {
-                // a is a resume of b so b must be earlier
-                return std::cmp::Ordering::Greater;
-            }
-        }
-        a.start_time.cmp(&b.start_time)
-    });
+    // sort by start_time but a resume lifecycle must be later than the one it resumes.
+    // A pairwise comparison of those two rules is not a total order (sort might panic or return
+    // the resume lc before the resumed one) so we calc a sort key for each lifecycle first.
+    // The resumed lifecycle always has a smaller id so we calc the keys sorted by id:
+    sorted_lcs.sort_by_key(|lc| lc.id);
+    let mut sort_keys: std::collections::HashMap<LifecycleId, u64> =
+        std::collections::HashMap::with_capacity(sorted_lcs.len());
+    for lc in &sorted_lcs {
+        let sort_key = match &lc.resume_lc {
+            Some(resume_lc) => std::cmp::max(
+                lc.resume_start_time(),
+                sort_keys
+                    .get(&resume_lc.id)
+                    .map_or(0, |k: &u64| k.saturating_add(1)),
+            ),
+            None => lc.start_time,
+        };
+        sort_keys.insert(lc.id, sort_key);
+    }
+    sorted_lcs.sort_by_key(|lc| (sort_keys[&lc.id], lc.id));
     sorted_lcs
 }
 
